@@ -442,7 +442,23 @@ def _next(eng, args, kwargs, node):
         m = eng.find_method(it, '__next__')
         if m is not None:
             return eng.call_function(m, [], {})
+    from .engine import GenResult
+    if isinstance(it, GenResult) and isinstance(it.items, list):
+        # a generator (executed eagerly): next() hands out and consumes its first remaining element
+        if it.items:
+            first = it.items[0]
+            it.items = it.items[1:]
+            return first
+        if len(args) > 1:
+            return args[1]
+        raise PyRaise('StopIteration', node=node)
     raise Unsupported('next() on %s' % pytype(it))
+
+
+def _map(eng, args, kwargs, node):
+    from .engine import GenResult
+    fn, seqs = args[0], [eng.iterate_concrete(a) for a in args[1:]]
+    return GenResult([eng.call(fn, list(t), {}, node) for t in zip(*seqs)])
 
 
 def _hasattr(eng, args, kwargs, node):
@@ -491,7 +507,7 @@ def make_builtins():
                      ('sum', _sum), ('sorted', _sorted), ('enumerate', _enumerate), ('zip', _zip),
                      ('isinstance', _isinstance), ('type', _type), ('any', _anyall(True)), ('all', _anyall(False)),
                      ('ord', _ord), ('chr', _chr), ('round', _round), ('print', _print), ('reversed', _reversed),
-                     ('iter', _iter), ('next', _next), ('hasattr', _hasattr), ('getattr', _getattr),
+                     ('iter', _iter), ('next', _next), ('map', _map), ('hasattr', _hasattr), ('getattr', _getattr),
                      ('setattr', _setattr), ('divmod', _divmod)]:
         b[name] = Builtin(name, fn)
     for name, fn in [('int', _int), ('float', _float), ('str', _str), ('bool', _bool), ('list', _list),
